@@ -1512,7 +1512,7 @@ class _rrulestr(object):
             rrkwargs["until"] = parser.parse(value,
                                              ignoretz=kwargs.get("ignoretz"),
                                              tzinfos=kwargs.get("tzinfos"))
-        except ValueError:
+        except (ValueError, OverflowError):
             raise ValueError("invalid until date")
 
     def _handle_WKST(self, rrkwargs, name, value, **kwargs):
@@ -1616,7 +1616,11 @@ class _rrulestr(object):
                 value_found = True
 
         for datestr in date_value.split(','):
-            date = parser.parse(datestr, ignoretz=ignoretz, tzinfos=tzinfos)
+            try:
+                date = parser.parse(datestr, ignoretz=ignoretz,
+                                    tzinfos=tzinfos)
+            except OverflowError:
+                raise ValueError("invalid date value: " + datestr)
             if TZID is not None:
                 if date.tzinfo is None:
                     date = date.replace(tzinfo=TZID)
@@ -1725,9 +1729,13 @@ class _rrulestr(object):
                                                      tzinfos=tzinfos))
                 for value in rdatevals:
                     for datestr in value.split(','):
-                        rset.rdate(parser.parse(datestr,
-                                                ignoretz=ignoretz,
-                                                tzinfos=tzinfos))
+                        try:
+                            rdate = parser.parse(datestr,
+                                                 ignoretz=ignoretz,
+                                                 tzinfos=tzinfos)
+                        except OverflowError:
+                            raise ValueError("invalid date value: " + datestr)
+                        rset.rdate(rdate)
                 for value in exrulevals:
                     rset.exrule(self._parse_rfc_rrule(value, dtstart=dtstart,
                                                       ignoretz=ignoretz,
